@@ -65,11 +65,13 @@ struct MBlock {
 	std::string type;
 	std::multiset<int> targets; // logical ids of non-empty references (refs and ptrs)
 	int empties = 0;			// number of empty reference objects
+	long size = -1;				// header size entry of the block (-1: not tracked; versions >= 20.2.0.5 only)
 };
 struct Model {
 	std::vector<MBlock> slots; // index = block index
 	int next_id = 0;
 	bool order_free = false; // set by PrettySort: the model predicts the block set, not the order
+	bool sized = false;		 // the version keeps a per-block size table in the header
 	int find(int id) const { for (size_t i = 0; i < slots.size(); i++) if (slots[i].id == id) return (int) i; return -1; }
 	bool referenced(int id) const {
 		for (auto& b : slots) if (b.targets.count(id)) return true;
@@ -226,19 +228,19 @@ static void apply_model(Model& m, const Op& o, const std::map<std::string, int>&
 	m.order_free = false;
 	switch (o.kind) {
 		case ADD_NODE: {
-			MBlock b{m.next_id++, "NiNode", {}, fresh_empties.at("NiNode")};
+			MBlock b{m.next_id++, "NiNode", {}, fresh_empties.at("NiNode"), m.sized ? 0 : -1};
 			m.slots[(size_t) o.a].targets.insert(b.id);
 			m.slots.push_back(b);
 			break;
 		}
 		case ASSIGN_ED: {
-			MBlock b{m.next_id++, "NiStringExtraData", {}, fresh_empties.at("NiStringExtraData")};
+			MBlock b{m.next_id++, "NiStringExtraData", {}, fresh_empties.at("NiStringExtraData"), m.sized ? 0 : -1};
 			m.slots[(size_t) o.a].targets.insert(b.id);
 			m.slots.push_back(b);
 			break;
 		}
 		case ADD_LOOSE: {
-			MBlock b{m.next_id++, LOOSE_TYPES[o.a], {}, fresh_empties.at(LOOSE_TYPES[o.a])};
+			MBlock b{m.next_id++, LOOSE_TYPES[o.a], {}, fresh_empties.at(LOOSE_TYPES[o.a]), m.sized ? 0 : -1};
 			m.slots.push_back(b);
 			break;
 		}
@@ -248,6 +250,7 @@ static void apply_model(Model& m, const Op& o, const std::map<std::string, int>&
 			b.type = REPLACE_TYPES[o.b];
 			b.targets.clear();
 			b.empties = fresh_empties.at(b.type);
+			if (m.sized) b.size = 0; // a replaced block's size entry is reset until the next save
 			break;
 		}
 		case SET_ORDER: {
@@ -347,6 +350,12 @@ static std::string check(Sut& s, Model& m, const char* opname) {
 	}
 	for (auto& t : names) if (!used.count(t)) return "type-table-unused: '" + t + "' is in the type table but no block uses it";
 	if (hdr.GetVersion().File() >= V20_2_0_5 && hdr.blockSizes.size() != n) return vf::strf("size-table: %zu entries for %zu blocks", hdr.blockSizes.size(), n);
+	// the size entry is part of the header's description of a block: it moves with the block (delete, reorder, sort),
+	// and is 0 for a block added or replaced since the last save
+	for (size_t i = 0; i < n; i++)
+		if (m.slots[i].size >= 0 && (long) hdr.GetBlockSize((uint32_t) i) != m.slots[i].size)
+			return vf::strf("size-entry: header size entry of slot %zu (%s, logical %d) is %u, the entry of that block was %ld", i, m.slots[i].type.c_str(), m.slots[i].id,
+							hdr.GetBlockSize((uint32_t) i), m.slots[i].size);
 	(void) opname;
 	return "";
 }
@@ -387,6 +396,19 @@ static std::string canon(const Model& m, const std::string& ver) {
 	return c;
 }
 
+// Before a checked transition every block gets a distinct, non-zero header size entry (what a loaded file has);
+// the model records it, so the transition is checked on size entries that tell the blocks apart whatever the
+// history before it was - the canonical state form therefore need not carry size values.
+static void stamp_sizes(Sut& s, Model& m) {
+	auto& hdr = s.nif.GetHeader();
+	m.sized = hdr.GetVersion().File() >= V20_2_0_5 && hdr.blockSizes.size() == m.slots.size() && hdr.blockSizes.size() == hdr.GetNumBlocks();
+	if (!m.sized) { for (auto& b : m.slots) b.size = -1; return; }
+	for (size_t i = 0; i < m.slots.size(); i++) {
+		hdr.blockSizes[i] = 1000 + 7 * (uint32_t) i;
+		m.slots[i].size = hdr.blockSizes[i];
+	}
+}
+
 // replay a history on a fresh model; checks only the last transition (prefixes were checked when first reached)
 // returns "" or the violation text; *out_canon = canonical form of the reached state
 static std::string run_history(const std::string& init, const std::string& ver, const History& h, Stats& st, std::string* out_canon, Model* out_model,
@@ -396,6 +418,7 @@ static std::string run_history(const std::string& init, const std::string& ver, 
 	build_init(init, ver, s, m);
 	std::string err = h.empty() ? check(s, m, "init") : "";
 	for (size_t k = 0; k < h.size() && err.empty(); k++) {
+		if (k + 1 == h.size() || check_all) stamp_sizes(s, m);
 		Model before = m;
 		apply_impl(s, h[k], before);
 		apply_model(m, h[k], s.fresh_empties);
@@ -434,7 +457,9 @@ static std::vector<uint32_t> written_refs(NiObject* x, NiHeader& hdr) {
 }
 
 static std::string g_typed_header_name; // what AddBlock registered for the block under test
-static const char* TYPED_OPS[] = {"DeleteBlock(1)", "DeleteBlock(2)", "SetBlockOrder(swap 1,2)", "SetBlockOrder(reverse)", "PrettySortBlocks", "DeleteBlock(0)"};
+static const char* TYPED_OPS[] = {"DeleteBlock(1)", "DeleteBlock(2)", "SetBlockOrder(swap 1,2)", "SetBlockOrder(reverse)", "PrettySortBlocks", "DeleteBlock(0)",
+								  "SetBlockOrder(rotate 1->2->3->1)", "SetBlockOrder(rotate 1->2->3->1) twice"};
+static const int N_TYPED_OPS = 8;
 
 static bool typed_build(const std::string& type, const e1::VerCfg& vc, NifFile& nif, NiObject*& x) {
 	nif.Create(vc.ver());
@@ -476,7 +501,7 @@ static void typed_unit(const std::string& type, const e1::VerCfg& vc, Stats& st)
 	for (auto v : L0) if (v != NIF_NPOS) nonempty++;
 	if (nonempty == 0) { st.add("typed_types_without_references"); return; }
 	st.add("typed_cases_with_references");
-	for (int op = 0; op < 6; op++) {
+	for (int op = 0; op < N_TYPED_OPS; op++) {
 		J cj = J(cj0).set("op", TYPED_OPS[op]);
 		vf::set_inflight(cj.dump());
 		NifFile nif;
@@ -492,6 +517,9 @@ static void typed_unit(const std::string& type, const e1::VerCfg& vc, Stats& st)
 			case 3: { std::vector<uint32_t> p = {3, 2, 1, 0}; hdr.SetBlockOrder(p); break; }
 			case 4: nif.PrettySortBlocks(); break;
 			case 5: hdr.DeleteBlock(0u); break;
+			// a 3-cycle (not its own inverse); applied twice, a target sits in the LAST slot when the second reorder starts
+			case 6: { std::vector<uint32_t> p = {0, 2, 3, 1}; hdr.SetBlockOrder(p); break; }
+			case 7: { std::vector<uint32_t> p = {0, 2, 3, 1}; hdr.SetBlockOrder(p); std::vector<uint32_t> q = {0, 2, 3, 1}; hdr.SetBlockOrder(q); break; }
 		}
 		std::map<NiObject*, uint32_t> after;
 		for (uint32_t i = 0; i < hdr.GetNumBlocks(); i++) after[hdr.GetBlock<NiObject>(i)] = i;
@@ -696,7 +724,7 @@ int main(int argc, char** argv) {
 						 "current index range, graphs of at most max_blocks blocks; state = history replayed on a fresh NifFile; canonical state = per slot (type, sorted "
 						 "target slots, number of empty references) + version; every transition is executed on the implementation and compared with the reference model, "
 						 "every reached state is saved raw and reloaded.  Typed phase: for every registered block type x version configuration a 4-block graph whose "
-						 "block 3 is read from an E1 tape with references alternating between two targets; 6 edits (delete target 1 / 2 / root, swap, reverse, sort); "
+						 "block 3 is read from an E1 tape with references alternating between two targets; 8 edits (delete target 1 / 2 / root, swap, reverse, sort, 3-cycle once and twice - the second time with a target in the last slot); "
 						 "the references the block *serialises* (write-side reference hook, not the enumerators) must follow the renumbering induced by object identity");
 	vf::finish(top);
 	return 0;
